@@ -348,24 +348,7 @@ Definition un_dispatch (fuel : nat) (sx : ty) (op : unop) (v : value) (st : stor
           | r => r
           end
       end
-  | USum =>
-      let t := as_type v in
-      let s := sx in
-      let ti := TFun [] (TTup [TBool; TInt]) in
-      let tf := TFun [] (TTup [TBool; TFloat]) in
-      let ts := TFun [] (TTup [TBool; TString]) in
-      let any := matches ti s || matches tf s || matches ts s in
-      let choose := fun c => matches t c && (negb any || matches c s) in
-      if choose ti then call_def (p_int_sum pre) [v] st sc
-      else if choose tf then call_def (p_float_sum pre) [v] st sc
-      else call_def (p_string_sum pre) [v] st sc
-  | UProduct =>
-      let t := as_type v in
-      let s := sx in
-      let ti := TFun [] (TTup [TBool; TInt]) in
-      let tf := TFun [] (TTup [TBool; TFloat]) in
-      if matches t ti && (matches ti s || negb (matches tf s)) then call_def (p_int_product pre) [v] st sc
-      else call_def (p_float_product pre) [v] st sc
+  | USum | UProduct
   | UAll | UAny | UBitAnd | UBitOr => (st, sc, SPanic)
   end.
 
@@ -1837,12 +1820,6 @@ Proof.
   intros fuel sx op v st s rest.
   destruct op; unfold un_dispatch; try apply rtail_here;
     try (apply (rtail_scs _ s); apply sig_of_outcome_scs; intros; reflexivity).
-  - (* USum *)
-    cbv zeta. repeat match goal with |- context [if ?c then _ else _] => destruct c end;
-      apply (rtail_scs _ s); apply call_def_scs.
-  - (* UProduct *)
-    cbv zeta. repeat match goal with |- context [if ?c then _ else _] => destruct c end;
-      apply (rtail_scs _ s); apply call_def_scs.
   - (* UIndirection *)
     destruct v; try apply rtail_here. destruct (nth_error (s_cells st) loc); apply rtail_here.
   - (* UFunctionCall *)
